@@ -369,9 +369,9 @@ def native_replay(repo, unit, tests, descs):
 
 # ------------------------------------------------------------------ native stand-ins
 
-def run_native(repo, nhs, logpath):
+def run_native(repo, nhs, logpath, tier='quick'):
     cmd = ['cargo', 'test', '--offline', '--lib', 'verif_native_', '--', '--test-threads', '8']
-    env = dict(os.environ, CARGO_NET_OFFLINE='true', CARGO_TERM_COLOR='never', RUSTFLAGS='--cfg verif_native', RUST_BACKTRACE='0')
+    env = dict(os.environ, CARGO_NET_OFFLINE='true', CARGO_TERM_COLOR='never', RUSTFLAGS='--cfg verif_native', RUST_BACKTRACE='0', VERIF_TIER=tier)
     try:
         out = subprocess.run(cmd, cwd=repo, env=env, stdout=subprocess.PIPE, stderr=subprocess.STDOUT, text=True, timeout=3000).stdout
     except subprocess.TimeoutExpired:
@@ -609,7 +609,7 @@ def main(argv):
                 v['native_replay'] = native
         # ---------------- native bounded stand-ins (real code, concrete enumeration; never counted as proved)
         if nhs:
-            nres, ncmd, nout = run_native(repo, nhs, os.path.join(OUT_DIR, f'{prop}.{a.tier}.native.log'))
+            nres, ncmd, nout = run_native(repo, nhs, os.path.join(OUT_DIR, f'{prop}.{a.tier}.native.log'), a.tier)
             for h in nhs:
                 st = nres.get(h.name)
                 rec = {'id': h.id, 'engine': 'native', 'harness': h.fq, 'kind': 'bounded', 'bound': h.bound, 'text': h.text, 'cmd': ncmd}
